@@ -135,8 +135,9 @@ def ids (env : Env) : List Id := env.owned ++ env.subs
 
 /-- `State.from_storage(body, handlers=owned).purge(body, patch, handlers=owned)`: the progress records of the
     resource's handlers (and of their sub-handlers, by the records' `subrefs`) that are PRESENT on the object are
-    patched away. What the no-op cause does since d1b2dc4 (C02 `cycle`, reason "noop"); since 423b86f also the
-    blind branch of `process_resource_causes`, since 40d09eb also the cause FREE. -/
+    patched away. What the no-op cause does since d1b2dc4 (C02 `cycle`, reason "noop") and, since 40d09eb, the cause
+    FREE (C02 `cycleB`'s FREE pass: `Kopf.C03.free_turn_is_cycleB`). (423b86f had the blind branch of
+    `process_resource_causes` do the same; ad4ec08 took that back.) -/
 def purged (env : Env) (s : State E) : C02.Store :=
   C02.purge s.P (C02.fromStorage s.P env.owned) env.owned env.owned
 
